@@ -46,9 +46,14 @@ class Solver:
         self.and_fn = self.or_fn = self.bip_fn = None
         self.paths_cache = {}
         import inline
-        self.inline = inline.helpers(prog, keep=KEEP)
+        # roles are found on the entry's paths.  At this stage only small private glue (a dispatch helper between the
+        # entry and the per-kind functions) is walked into; any sizeable function that takes a node and returns a verdict
+        # is a candidate role and stays a call, whatever its name or visibility
+        cand_roles = tuple(b.path for b in lib if b.kind == "Fn" and b.mir["arg_count"] >= 1 and node_arg(b) and
+                           is_verdict_ty(b.ret_ty) and len(b.blocks) > 40)
+        self.inline = inline.helpers(prog, keep=KEEP + cand_roles + tuple(self.fetchers), max_blocks=40)
         if self.entry is not None:
-            for p in self.paths(self.entry, 2):
+            for p in Walker(self.entry, max_visits=2 + self.extra_unroll, inline=self.inline).paths():
                 kinds = goal_kinds(p)
                 if p.end == "return" and p.ret[0] == "call":
                     tgt = [b for b in lib if b.path == p.ret[1]]
@@ -60,6 +65,10 @@ class Solver:
                         self.or_fn = tgt[0]
                     elif kinds.get("goal") == "BuiltInGoal":
                         self.bip_fn = tgt[0]
+        # from here on private helpers are walked into, but never one of the solver's own functions (whatever its
+        # name or visibility) nor a clause fetcher
+        roles = tuple(b.path for b in (self.entry, self.and_fn, self.or_fn, self.bip_fn) if b is not None) + tuple(self.fetchers)
+        self.inline = inline.helpers(prog, keep=KEEP + roles)
         # flag setter: a method writing `no_backtracking` through a raw pointer
         self.setter = None
         for b in lib:
